@@ -66,7 +66,8 @@ class C19(Check):
                       "repeat_compute_scales", "sharded_program",
                       "multi_scale", "convert_chunks_step", "stats_step",
                       "both_failed_vacuous", "mmap", "header_scaling",
-                      "input_max_rescaling"]
+                      "input_max_rescaling", "slices_program",
+                      "repeat_slices_step"]
 
     def setup_worker(self):
         from sim import simenv, simfs, simproc
@@ -76,11 +77,15 @@ class C19(Check):
 
     # ------------------------------------------------------------------
     def gen(self, rng, tier, idx):
-        cls = rng.choice(["equiv", "equiv", "steps", "steps", "steps"])
+        cls = rng.choice(["equiv", "equiv", "steps", "steps", "steps",
+                          "slices"])
         vdtype = rng.choice(["uint8", "uint8", "uint16", "uint32", "int16",
                              "float32", "float64"])
         scaling = rng.random() < 0.25
-        if cls == "equiv":
+        if cls == "slices":
+            shape = [rng.randint(1, 20) for _ in range(3)]
+            tcs = rng.choice([2, 4, 8])
+        elif cls == "equiv":
             long_axis = rng.randrange(3)
             shape = [rng.randint(1, 6) for _ in range(3)]
             shape[long_axis] = rng.choice([20, 65, 70, 129, 140])
@@ -118,6 +123,7 @@ class C19(Check):
                "convert_chunks": rng.random() < 0.3,
                "stats": rng.random() < 0.4,
                "seed": rng.randrange(1 << 30),
+               "code": rng.choice(["RAS", "LPI", "ASR", "ILP", "PSL", "SRA"]),
                "blksize": rng.choice([512, 4096, 65536]),
                # thorough: one data-writing command of the step-by-step
                # program is killed before its exit handlers run; the later
@@ -230,11 +236,167 @@ class C19(Check):
         scn = trace["scenario"]
         tmp = tempfile.mkdtemp(prefix="verif-c19-", dir=_scratch())
         try:
+            if scn["cls"] == "slices":
+                return self._execute_slices(scn, tmp)
             vol = os.path.join(tmp, "vol.nii")
             self._make_volume(scn, vol)
             return self._execute(scn, vol)
         finally:
             shutil.rmtree(tmp, ignore_errors=True)
+
+    def _execute_slices(self, scn, tmp):
+        """The documented slice workflow: hand-written info_fullres.json ->
+        generate-scales-info -> slices-to-precomputed -> compute-scales
+        [-> scale-stats], data-writing steps optionally repeated."""
+        import json
+        import numpy as np
+        import PIL.Image
+        from sim import dsutil, simproc
+        from sim.simfs import SimFS, mounted
+        from neuroglancer_scripts.scripts import (
+            compute_scales, generate_scales_info, scale_stats,
+            slices_to_precomputed)
+        res = Result()
+        log = EventLog()
+        fs = SimFS(blksize=scn["blksize"], log=log)
+        nc, nr, ns = scn["shape"]
+        code = scn["code"]
+        axis = {"R": 0, "L": 0, "A": 1, "P": 1, "S": 2, "I": 2}
+        size = [0, 0, 0]
+        for i, n in enumerate((nc, nr, ns)):
+            size[axis[code[i]]] = n
+        sdir = os.path.join(tmp, "slices")
+        os.mkdir(sdir)
+        rng = np.random.RandomState(scn["seed"] % (1 << 31))
+        for i in range(ns):
+            PIL.Image.fromarray(rng.randint(0, 256, size=(nr, nc)).astype(
+                np.uint8)).save(os.path.join(sdir, f"s{i:03d}.png"))
+        fullres = {"type": "image", "data_type": "uint8", "num_channels": 1,
+                   "scales": [{"encoding": "raw", "size": size,
+                               "resolution": [v * 1e6 for v in scn["vox"]],
+                               "voxel_offset": [0, 0, 0]}]}
+        fs.dirs[S] = True
+        fs.put(S + "/info_fullres.json", json.dumps(fullres).encode())
+        common = []
+        if scn["flat"]:
+            common.append("--flat")
+        if not scn["gzip"]:
+            common.append("--no-gzip")
+        te = []
+        if scn["type"]:
+            te += ["--type", scn["type"]]
+        if scn["encoding"]:
+            te += ["--encoding", scn["encoding"]]
+        ds_opts = []
+        if scn["method"] != "auto":
+            ds_opts += ["--downscaling-method", scn["method"]]
+        conv = ["slices-to-precomputed", sdir, S, "--input-orientation",
+                code] + common
+        cs = ["compute-scales", S] + common + ds_opts
+        steps = [("generate_scales", ["generate-scales-info",
+                                      S + "/info_fullres.json", S,
+                                      "--target-chunk-size", str(scn["tcs"])]
+                  + te), ("convert", conv)]
+        if scn["repeat_convert"]:
+            steps.append(("convert_again", conv))
+        steps.append(("compute_scales", cs))
+        if scn["repeat_scales"]:
+            steps.append(("compute_scales_again", cs))
+        if scn["stats"]:
+            steps.append(("stats", ["scale-stats", S]))
+        mains = {"generate-scales-info": generate_scales_info.main,
+                 "slices-to-precomputed": slices_to_precomputed.main,
+                 "compute-scales": compute_scales.main,
+                 "scale-stats": scale_stats.main}
+        compared = 0
+        n_scales = 0
+        flags = set()
+        prev = None
+
+        def dataset():
+            raw = fs.get(S + "/info")
+            info = json.loads(raw)
+            return info, dsutil.read_dataset(S, info)
+
+        def same(d1, d2):
+            for k in sorted(d1):
+                a, b = d1[k], d2[k]
+                if a[0] != b[0] or (a[0] == "ok" and not np.array_equal(
+                        a[1], b[1])):
+                    return f"chunk {k} differs"
+            return None
+        with mounted(fs):
+            for name, argv in steps:
+                log.add("RUN", [a if a != sdir else "SLICES" for a in argv])
+                pr = simproc.run_process(mains[argv[0]], argv, fs=fs)
+                log.add("EXIT", pr.status, pr.exc, pr.handler_errors)
+                if pr.status != 0:
+                    flags.add("fail:" + name)
+                    res.probe("slices_failed_at_" + name + "_" + str(pr.exc))
+                    break
+                if pr.handler_errors:
+                    res.violate("C19/exit-handler-error",
+                                f"{name}: exit handler raised "
+                                f"{pr.handler_errors} after status 0",
+                                key=f"C19/exit-handler-error/{name}/"
+                                f"{pr.handler_errors[0]}")
+                    break
+                if name == "generate_scales":
+                    raw = fs.get(S + "/info")
+                    if raw is None:
+                        res.violate("C19/success-but-missing",
+                                    "generate-scales-info exited 0 but info "
+                                    "is missing",
+                                    key="C19/success-but-missing/info")
+                        break
+                    n_scales = len(json.loads(raw)["scales"])
+                    continue
+                if name == "stats":
+                    res.probe("stats_step")
+                    continue
+                info, data = dataset()
+                keys = ({info["scales"][0]["key"]}
+                        if name.startswith("convert")
+                        else {s_["key"] for s_ in info["scales"][1:]})
+                bad = [(k, g) for k, g in sorted(data.items(),
+                                                 key=lambda kv: kv[0])
+                       if k[0] in keys and g[0] != "ok"]
+                if bad:
+                    res.violate("C19/success-but-missing",
+                                f"{argv[0]} exited 0 but chunk {bad[0][0]} "
+                                f"is {bad[0][1][0]} ({bad[0][1][1]})",
+                                key=f"C19/success-but-missing/{argv[0]}/"
+                                f"{bad[0][1][1]}")
+                    break
+                compared += 1
+                if name.endswith("_again"):
+                    sub = (lambda d: {k: v for k, v in d.items()
+                                      if k[0] in keys}) if name.startswith(
+                                          "convert") else (lambda d: d)
+                    diff = same(sub(prev), sub(data))
+                    flags.add("rep")
+                    res.probe("repeat_slices_step")
+                    if diff:
+                        res.violate("C19/repeat-changes-data",
+                                    f"repeating {argv[0]} changed the "
+                                    f"dataset: {diff}",
+                                    key=f"C19/repeat-changes-data/{argv[0]}")
+                        break
+                prev = data
+        res.probe("slices_program")
+        if n_scales > 1:
+            res.probe("multi_scale")
+        res.digest = log.digest()
+        res.steps = fs.total_calls
+        res.nontrivial = compared > 0
+        res.sig = "|".join(map(str, ["slices", code, scn["encoding"],
+                                     scn["type"], scn["method"],
+                                     ("F" if scn["flat"] else "D")
+                                     + ("z" if scn["gzip"] else "p"),
+                                     "n%d" % n_scales,
+                                     ",".join(sorted(flags))]))
+        res.info = {"compared": compared, "scales": n_scales}
+        return res
 
     def _execute(self, scn, vol):
         import json
